@@ -17,6 +17,7 @@ typedef struct { int id; int magic; } VO;
 
 static PTree *tree;
 static int plain, withdata, next_id;
+static int konly, vonly;   /* only a key / only a value destroy notifier: the other objects stay owned by the harness */
 static int data_cookie;
 static char dlog[1 << 16]; static size_t dlen;
 static int path[256], plen, probing;
@@ -114,13 +115,15 @@ int main (void) {
 		if (!strcmp (op, "new")) {
 			drop_tree ();
 			plain = !strcmp (a2, "plain") || !strcmp (a3, "plain");
+			konly = !strcmp (a2, "konly") || !strcmp (a3, "konly");
+			vonly = !strcmp (a2, "vonly") || !strcmp (a3, "vonly");
 			withdata = !strcmp (a2, "data") || !strcmp (a3, "data");
 			next_id = 0;
 			PTreeType ty = !strcmp (a1, "bst") ? P_TREE_TYPE_BINARY : !strcmp (a1, "rb") ? P_TREE_TYPE_RB : P_TREE_TYPE_AVL;
 			type = (int) ty;
 			if (plain && !withdata) tree = p_tree_new (ty, cmp_plain);
 			else if (plain) tree = p_tree_new_with_data (ty, cmp_data, &data_cookie);
-			else tree = p_tree_new_full (ty, cmp_data, withdata ? &data_cookie : NULL, key_destroy, val_destroy);
+			else tree = p_tree_new_full (ty, cmp_data, withdata ? &data_cookie : NULL, vonly ? NULL : key_destroy, konly ? NULL : val_destroy);
 			puts (tree ? "ok" : "fail");
 		} else if (!tree) puts ("bad-op");
 		else if (!strcmp (op, "ins") && n == 2) {
@@ -128,7 +131,8 @@ int main (void) {
 			if (o < 0 || o >= MAXORD) { puts ("bad-op"); continue; }
 			KO *k = malloc (sizeof *k); VO *v = malloc (sizeof *v);
 			k->ord = o; k->id = next_id; k->magic = KMAGIC; v->id = next_id; v->magic = VMAGIC; ++next_id;
-			if (plain) { pk[npk++] = k; pvv[npv++] = v; }
+			if (plain || vonly) pk[npk++] = k;
+			if (plain || konly) pvv[npv++] = v;
 			p_tree_insert (tree, k, v);
 			present[o] = 1;
 			printf ("n=%d d=[%s]\n", p_tree_get_nnodes (tree), dlog);
